@@ -15,6 +15,7 @@ import (
 	"sort"
 	"strings"
 	"sync"
+	"sync/atomic"
 	"time"
 
 	"github.com/pingcap/kvproto/pkg/metapb"
@@ -556,6 +557,12 @@ func (c *hookCluster) call(id uint64) {
 	}
 }
 
+// GetStores is called by selectCandidates between the construction of its filter list and its evaluation
+func (c *hookCluster) GetStores() []*core.StoreInfo {
+	c.call(0)
+	return c.Cluster.GetStores()
+}
+
 func (c *hookCluster) GetRegionStores(region *core.RegionInfo) []*core.StoreInfo {
 	c.call(region.GetID())
 	return c.Cluster.GetRegionStores(region)
@@ -595,9 +602,12 @@ func runConcurrent(hc *hookCluster, sc *schedule.RegionScatterer, regions []*cor
 	results := make([]concResult, 0, len(ws))
 	var resMu sync.Mutex
 	hc.mu.Lock()
+	var curID uint64 // the one goroutine that is running (set by the scheduler before it grants the turn)
 	hc.hook = func(id uint64) {
-		if w, ok := ws[id]; ok {
-			events <- id
+		// exactly one worker runs at a time, so whoever calls is the current one (GetStores carries no region)
+		me := atomic.LoadUint64(&curID)
+		if w, ok := ws[me]; ok {
+			events <- me
 			<-w.grant
 		}
 	}
@@ -627,6 +637,7 @@ func runConcurrent(hc *hookCluster, sc *schedule.RegionScatterer, regions []*cor
 			next = order[r.Intn(len(order))]
 		}
 		cur = next
+		atomic.StoreUint64(&curID, cur)
 		ws[cur].grant <- struct{}{}
 		select {
 		case ev := <-events:
